@@ -12,7 +12,9 @@
 (* The record says nothing about device / interface / diff method: TLC     *)
 (* recomputes the tree from the request alone and prints one verdict per   *)
 (* record: "ok", "nesting" (tuple structure differs), "shape" (same        *)
-(* nesting, an array shape differs), "malformed", "invalid-request".       *)
+(* nesting, an array shape differs), "malformed", "invalid-request", or    *)
+(* "drift-batch1" (equal to the tolerated variant TapeTreeSq, see          *)
+(* ResultShape: not a verdict about the property).                         *)
 (***************************************************************************)
 EXTENDS ResultShape, Json, IOUtils
 CONSTANT NTRACES
@@ -33,11 +35,17 @@ ValidReq(r) ==
   /\ (r.what = "jq" => Len(r.args) >= 1 /\ (r.wrap \/ Len(r.args) = 1))
   /\ (r.what \in {"jt", "bjt"} => Len(r.ps) = Len(r.tapes) /\ \A i \in 1..Len(r.ps) : r.ps[i] >= 1)
 
+Variant(r) ==
+  CASE r.what = "res"  -> TapeTreeSq(r.tapes[1], r.n)
+    [] r.what = "bres" -> BatchTreeSq(r.tapes, r.n)
+    [] OTHER           -> Expected(r)
+
 Verdict(r) ==
   IF ~ValidReq(r) THEN "invalid-request"
   ELSE IF ~WellFormed(r.obs) THEN "malformed"
   ELSE LET e == TLCEval(Expected(r)) IN
        IF r.obs = e THEN "ok"
+       ELSE IF r.obs = Variant(r) THEN "drift-batch1"
        ELSE IF Skeleton(r.obs) # Skeleton(e) THEN "nesting" ELSE "shape"
 
 TInit == tid \in 1..NTRACES /\ done = FALSE
